@@ -187,6 +187,14 @@ def run(ctx):
             if badtext and ":fire" not in api and "X:PROTO" not in outs_:
                 ctx.violate("illegal-frame-raises-protocol-error", cause + "-after-payload-rejection", inp,
                             f"PROTO when frame #{first_bad} ({f.desc()}) is read", impl[:300], size=len(frames) * 10)
+            if first_bad == len(frames) - 1 and first_exc in ("X:PROTO", "X:PAYLOAD"):
+                # the illegal frame is the last one of the stream: once it has been refused nothing more can be delivered —
+                # certainly not the frame itself by the next call
+                k = outs_.index(first_exc)
+                later = [o for o in outs_[k + 1:] if not o.startswith("X:")]
+                if later:
+                    ctx.violate("illegal-frame-raises-protocol-error", cause + "-then-delivered-by-a-later-call", inp,
+                                "nothing is returned after the refusal", impl[:300], size=len(frames) * 10)
             if first_exc is None or first_exc not in ("X:PROTO", "X:PAYLOAD"):
                 ctx.violate("illegal-frame-raises-protocol-error", cause, inp, f"PROTO when frame #{first_bad} ({f.desc()}) is read",
                             impl[:300], size=len(frames) * 10 + sum(len(g.data) for g in frames))
